@@ -25,6 +25,10 @@ fn profile(rng: &mut Rng) -> Profile {
     p.p_clear = if rng.chance(1, 3) { (1, 15) } else { (0, 1) };
     p.p_restart = if rng.chance(1, 3) { (1, 15) } else { (0, 1) };
     p.w_spin = 0;
+    // swarm knobs: pending-pool traffic, tiny allowances (validation failures), blocks built in two pieces
+    p.signed_chaos = rng.chance(1, 2);
+    p.len_variety = rng.chance(1, 3);
+    p.p_midblock = if rng.chance(1, 3) { (1, 6) } else { (0, 1) };
     p
 }
 
